@@ -51,6 +51,16 @@ def run(tier, seed):
             c['stop_on_exc'] = True
             c['recover'] = [{'op': 'counters'}, {'op': 'rotate', 'id': 'rec', 'export': False, 'retry': True}, {'op': 'wb'}, {'op': 'counters'}]
             scen.append((name + '/' + kind, c))
+    # scenarios padded so that the closing break is written with the staging buffer exactly full (the break itself must flush)
+    from . import c13
+    steered, hits = c13.steered_cases(tier, seed)
+    for c in steered:
+        if any(o['op'] == 'rotate' for o in c['ops']):
+            c = copy.deepcopy(c)
+            c['id'] = 'z' + c['id'][1:]
+            c['stop_on_exc'] = True
+            c['recover'] = [{'op': 'counters'}, {'op': 'rotate', 'id': 'rec', 'export': False, 'retry': True}, {'op': 'wb'}, {'op': 'counters'}]
+            scen.append(('steered-full-buffer/%s/%s/%s' % (c['open']['comp'], c['id'], c['open']['kind']), c))
     injected_runs = exc_seen = recovered = 0
     outcome = {}
     try:
